@@ -296,9 +296,9 @@ Proof.
         pose proof (Hlen (i - Z.to_nat a_lo)%nat ltac:(lia)). pext. lia.
   - intros i Hi. pose proof (Hlen i Hi).
     destruct (Z.eqb a_lo 0); [destruct (Z.eqb a_hi 0); plen|].
-    destruct (Z.ltb (Z.of_nat i) a_lo).
-    + destruct (Z.eqb _ 0); plen. pose proof (Hlen (Z.to_nat (e - a_lo) + i)%nat). unfold e in *. lia.
-    + destruct (Z.eqb a_hi 0); plen. pose proof (Hlen (i - Z.to_nat a_lo)%nat). lia.
+    destruct (Z.ltb_spec (Z.of_nat i) a_lo).
+    + pose proof (Hlen (Z.to_nat (e - a_lo) + i)%nat ltac:(unfold e in *; lia)). destruct (Z.eqb _ 0); plen.
+    + pose proof (Hlen (i - Z.to_nat a_lo)%nat ltac:(lia)). destruct (Z.eqb a_hi 0); plen.
 Qed.
 
 (* the repaired contribution has no exception *)
@@ -321,9 +321,9 @@ Proof.
     + pose proof (Hlen (Z.to_nat (e - a_lo) + i)%nat ltac:(unfold e in *; lia)). pext. lia.
     + pose proof (Hlen (i - Z.to_nat a_lo)%nat ltac:(lia)). pext. lia.
   - intros i Hi. pose proof (Hlen i Hi).
-    destruct (Z.ltb (Z.of_nat i) a_lo); plen.
-    + pose proof (Hlen (Z.to_nat (e - a_lo) + i)%nat). unfold e in *. lia.
-    + pose proof (Hlen (i - Z.to_nat a_lo)%nat). lia.
+    destruct (Z.ltb_spec (Z.of_nat i) a_lo).
+    + pose proof (Hlen (Z.to_nat (e - a_lo) + i)%nat ltac:(unfold e in *; lia)). plen.
+    + pose proof (Hlen (i - Z.to_nat a_lo)%nat ltac:(lia)). plen.
 Qed.
 
 (* the statement one wants for the code as it is ... *)
@@ -343,11 +343,12 @@ Proof.
   - vm_compute. discriminate.
 Qed.
 
-(* end to end on the executable model: table (5,7 | 6,8 interleaved = 5,6,7,8), one block of one coefficient a = 1, s = 1, b = 0:
-   component 0 should be that of Y^1 * (5,6,7,8) = (-8,5,6,7), i.e. (-8, 6); the code's loop gives something else *)
+(* end to end on the executable model: table (5,7 | 6,8 interleaved = 5,6,7,8), one block of one coefficient a = -1
+   (ai_hi = 2N-1, ai_lo = 1), s = 1, b = 0: component 0 should be that of Y^-1 * (5,6,7,8) = (6,7,8,-5), i.e. (6, 8);
+   the code's loop leaves (5, 7) *)
 Theorem cggi_extended_refuted :
   exists (n block : nat) (b : Z) (av sv : list Z) (lutp : list poly),
     nth 0 (cggi_extended n block b av sv lutp) [] <> nth 0 (ext_rot n (b + dotp (combine av sv)) lutp) [].
 Proof.
-  exists 2%nat, 1%nat, 0, [1], [1], [[5; 7]; [6; 8]]. vm_compute. discriminate.
+  exists 2%nat, 1%nat, 0, [-1], [1], [[5; 7]; [6; 8]]. vm_compute. discriminate.
 Qed.
